@@ -72,6 +72,8 @@ static bool compare_do_not_want_end_of_string(Constraint *constraint, CgreenValu
 static bool compare_want_double(Constraint *constraint, CgreenValue actual);
 static void test_want_double(Constraint *constraint, const char *function, CgreenValue actual,
                              const char *test_file, int test_line, TestReporter *reporter);
+static void test_double_comparison(Constraint *constraint, const char *function, CgreenValue actual,
+                                   const char *test_file, int test_line, TestReporter *reporter);
 static bool compare_do_not_want_double(Constraint *constraint, CgreenValue actual);
 static void test_do_not_want_double(Constraint *constraint, const char *function, CgreenValue actual,
                                     const char *test_file, int test_line, TestReporter *reporter);
@@ -248,7 +250,7 @@ Constraint *create_less_than_value_constraint(intptr_t expected_value, const cha
     constraint->type = CGREEN_VALUE_COMPARER_CONSTRAINT;
 
     constraint->compare = &compare_want_lesser_value;
-    constraint->execute = &test_true;
+    constraint->execute = &test_want;
     constraint->name = "be less than";
     constraint->expected_value_message = "\t\texpected to be less than:\t[%" PRIdPTR "]";
     constraint->size_of_expected_value = sizeof(intptr_t);
@@ -261,7 +263,7 @@ Constraint *create_greater_than_value_constraint(intptr_t expected_value, const 
     constraint->type = CGREEN_VALUE_COMPARER_CONSTRAINT;
 
     constraint->compare = &compare_want_greater_value;
-    constraint->execute = &test_true;
+    constraint->execute = &test_want;
     constraint->name = "be greater than";
     constraint->expected_value_message = "\t\texpected to be greater than:\t[%" PRIdPTR "]";
     constraint->size_of_expected_value = sizeof(intptr_t);
@@ -426,7 +428,7 @@ Constraint *create_less_than_double_constraint(double expected_value, const char
     constraint->type = CGREEN_DOUBLE_COMPARER_CONSTRAINT;
 
     constraint->compare = &compare_want_lesser_double;
-    constraint->execute = &test_true;
+    constraint->execute = &test_double_comparison;
     constraint->name = "be less than double";
     constraint->destroy = &destroy_double_constraint;
     constraint->expected_value_message = "\t\texpected to be less than:\t[%08f]";
@@ -439,7 +441,7 @@ Constraint *create_greater_than_double_constraint(double expected_value, const c
     constraint->type = CGREEN_DOUBLE_COMPARER_CONSTRAINT;
 
     constraint->compare = &compare_want_greater_double;
-    constraint->execute = &test_true;
+    constraint->execute = &test_double_comparison;
     constraint->name = "be greater than double";
     constraint->destroy = &destroy_double_constraint;
     constraint->expected_value_message = "\t\texpected to be greater than:\t[%08f]";
@@ -732,6 +734,21 @@ static void test_want_double(Constraint *constraint, const char *function, Cgree
             "Wanted [%f], but got [%f] in function [%s] parameter [%s]",
             constraint->expected_value.value.double_value,
             actual.value.double_value,
+            function,
+            constraint->parameter_name);
+}
+
+static void test_double_comparison(Constraint *constraint, const char *function, CgreenValue actual,
+                                   const char *test_file, int test_line, TestReporter *reporter) {
+    (*reporter->assert_true)(
+            reporter,
+            test_file,
+            test_line,
+            (*constraint->compare)(constraint, actual),
+            "Expected [%f] to [%s] [%f] in function [%s] parameter [%s]",
+            actual.value.double_value,
+            constraint->name,
+            constraint->expected_value.value.double_value,
             function,
             constraint->parameter_name);
 }
